@@ -11,7 +11,8 @@ COQ = dict(imports=["Model.Heads", "Model.Stamp", "Spec.C05"], in_ty="c05_any", 
            corr="corr_C05_any", decide="check_C05_any", model="model_C05_any")
 THEOREMS = ["C05_decider_sound", "C05_single_target", "C05_base", "C05_purge", "C05_multi_refuted", "C05_multi_partial",
             "C05_multi_partial_class", "C05_any_decider_sound", "C05_e2e_single", "C05_e2e_base", "C05_e2e_purge_any_table",
-            "C05_label_head_refuted", "C05_label_base", "C05_label_head_partial"]
+            "C05_label_head_refuted", "C05_label_base", "C05_label_head_partial",
+            "C05_multi_partial_general", "C05_multi_down_refuted"]
 TRUSTED = [
     "SQLite + SQLAlchemy execute the three bookkeeping statements as the list model says; matched-row counts are observed",
     "the revision graph is given to the model already loaded; `heads` is given as the observed order of RevisionMap._real_heads "
@@ -38,7 +39,8 @@ RULE = ("quick: EVERY history of <=4 revisions (topological load order, each ear
         "purge=..) with a generic-template env.py on a SQLite FILE, rows read back by a FRESH connection: every history of <=3 revisions "
         "(+12 sampled 4-revision ones; thorough 200) x {every antichain state reached by real `upgrade` commands, a table holding an id "
         "the scripts do not know (with and without a known one)} x targets {base, each id, lab@head and lab@base for every placement of the label "
-        "(resolved by the model: Model.Stamp.resolve_label)} x purge; the committed rows / exception class are compared with Model.Stamp.stamp_cmd. Compared exactly: the StampSteps returned by "
+        "(resolved by the model: Model.Stamp.resolve_label)} x purge; the same on <=3 revisions with the version-table variants of C03 (version_table name, version_table_schema through an "
+        "ATTACHed database file, version_table_pk=False); the committed rows / exception class are compared with Model.Stamp.stamp_cmd. Compared exactly: the StampSteps returned by "
         "_stamp_revs (from_, to_, is_upgrade, branch_move), after every step the rows (multiset) and every statement with its "
         "matched-row count, the exception class. non-trivial = at least one step ran")
 EXHAUSTIVE = {"quick": True, "thorough": True}
@@ -93,7 +95,7 @@ def random_cases(rnd, count):
         yield {"g": g, "rows": H, "target": t, "purge": rnd.random() < 0.15, "kind": "random"}
 
 
-def e2e_cases(n, rnd=None, sample=None):
+def e2e_cases(n, rnd=None, sample=None, cfg=None, labs=None):
     """command.stamp end to end on a database FILE: history of n revisions (revision `lab` carries the branch label
     `lab`), start state = an antichain reached by real `upgrade` commands, or a table holding an id the scripts do
     not know (the reason --purge exists); targets base / each id / lab@head; with and without --purge"""
@@ -103,7 +105,7 @@ def e2e_cases(n, rnd=None, sample=None):
     for down, deps in graphs:
         g = base._g(n, down, deps)
         kids = {i: [j for j in range(n) if i in down.get(j, ())] for i in range(n)}
-        for lab in range(n):
+        for lab in (range(n) if labs is None else labs):
             # lab@head resolves iff exactly one head (by down_revision) descends from the labelled revision
             seen, todo, heads = set(), [lab], set()
             while todo:
@@ -122,7 +124,7 @@ def e2e_cases(n, rnd=None, sample=None):
             for st in states:
                 for t in tg:
                     for purge in (False, True):
-                        yield {"e2e": True, "g": g, "label_on": lab, "state": st, "target": t, "purge": purge,
+                        yield {"e2e": True, "g": g, "label_on": lab, "state": st, "target": t, "purge": purge, "cfg": cfg,
                                "kind": "e2e-n%d" % n}
 
 
@@ -143,6 +145,14 @@ def generate(tier, seed):
     for n in (1, 2, 3):
         yield from e2e_cases(n)
     yield from e2e_cases(4, rnd, 12 if tier == "quick" else 200)
+    # version_table name / version_table_schema (ATTACHed database file) / version_table_pk=False, on non-empty tables too
+    for vc in base.CFGS[1:]:
+        for n in (1, 2):
+            yield from e2e_cases(n, cfg=vc)
+        if tier == "quick":
+            yield from e2e_cases(3, rnd, 6, cfg=vc, labs=(0,))
+        else:
+            yield from e2e_cases(3, cfg=vc)
     if tier == "thorough":
         for n in (2, 3, 4):
             yield from exhaustive(n, ordered=True, triples=True)
@@ -160,9 +170,14 @@ ENV_PY = """
 from sqlalchemy import engine_from_config, pool
 from alembic import context
 config = context.config
+vt = config.attributes.get("vt") or {}
 connectable = engine_from_config(config.get_section(config.config_ini_section, {}), prefix="sqlalchemy.", poolclass=pool.NullPool)
 with connectable.connect() as connection:
-    context.configure(connection=connection, target_metadata=None)
+    if vt.get("attach"):
+        connection.exec_driver_sql("ATTACH DATABASE '%s' AS %s" % (vt["attach"], vt["version_table_schema"]))
+        connection.commit()          # do not leave an autobegun transaction: alembic would treat it as an external one
+    kw = {k: vt[k] for k in ("version_table", "version_table_schema", "version_table_pk") if k in vt}
+    context.configure(connection=connection, target_metadata=None, **kw)
     with context.begin_transaction():
         context.run_migrations()
 """
@@ -199,14 +214,30 @@ def run_e2e(h):
         cfg = Config(stdout=io.StringIO())
         cfg.set_main_option("script_location", sd)
         cfg.set_main_option("sqlalchemy.url", url)
+        # version table variants (name / schema through an ATTACHed database file / no primary key), as in C03
+        vc = h.get("cfg")
+        table, schema, pk = (vc["table"], vc["schema"], vc["pk"]) if vc else ("alembic_version", None, True)
+        attach = os.path.join(tmp, "aux.sqlite") if schema else None
+        if vc:
+            cfg.attributes["vt"] = {"version_table": table, "version_table_pk": pk}
+            if schema:
+                cfg.attributes["vt"].update({"version_table_schema": schema, "attach": attach})
+        qual = ('"%s".' % schema if schema else "") + '"%s"' % table
+
+        def connect(eng):
+            c = eng.connect()
+            if schema:
+                c.exec_driver_sql("ATTACH DATABASE '%s' AS %s" % (attach, schema))
+                c.commit()
+            return c
 
         def fresh_rows():
             eng = sa.create_engine(url)
             try:
-                with eng.connect() as c:
-                    if not sa.inspect(c).has_table("alembic_version"):
+                with connect(eng) as c:
+                    if not sa.inspect(c).has_table(table, schema=schema):
                         return []
-                    return [base._back(r[0]) for r in c.execute(sa.text("SELECT version_num FROM alembic_version"))]
+                    return [base._back(r[0]) for r in c.execute(sa.text("SELECT version_num FROM %s" % qual))]
             finally:
                 eng.dispose()
 
@@ -219,11 +250,12 @@ def run_e2e(h):
                 raise RuntimeError("could not reach state %r: rows %r" % (st["up"], fresh_rows()))
         else:
             eng = sa.create_engine(url)
-            with eng.begin() as c:
-                c.execute(sa.text("CREATE TABLE alembic_version (version_num VARCHAR(32) NOT NULL, "
-                                  "CONSTRAINT alembic_version_pkc PRIMARY KEY (version_num))"))
+            with connect(eng) as c:
+                c.execute(sa.text("CREATE TABLE %s (version_num VARCHAR(32) NOT NULL%s)" % (
+                    qual, ", PRIMARY KEY (version_num)" if pk else "")))
                 for x in st["raw"]:
-                    c.execute(sa.text("INSERT INTO alembic_version VALUES ('%s')" % base._name(x)))
+                    c.execute(sa.text("INSERT INTO %s VALUES ('%s')" % (qual, base._name(x))))
+                c.commit()
             eng.dispose()
         before = fresh_rows()
 
@@ -274,8 +306,9 @@ def run_e2e(h):
     start = [] if h["purge"] else before
     label_only = [x for x in start if dests and len(groups[0]) > 1 and rel(x, groups[0][0]) and not rel(x, dests[0])]
     out.update({"groups": groups, "dests": dests, "label_only_rows": label_only})
-    shape = "%s-%s-%s%s%s" % (h["kind"], "up" if "up" in st else "unknown-row", "base" if t == "base" else t if "@" in t else "id",
-                              "-purge" if h["purge"] else "", "-" + out["err"] if "err" in out else "")
+    shape = "%s%s-%s-%s%s%s" % (h["kind"], "-cfg:%s/%s/%s" % (table, schema, "pk" if pk else "nopk") if vc else "",
+                                "up" if "up" in st else "unknown-row", "base" if t == "base" else t if "@" in t else "id",
+                                "-purge" if h["purge"] else "", "-" + out["err"] if "err" in out else "")
     return dict(cin=cin, cout=cout, out=out, nontrivial="err" not in out and sorted(before) != sorted(out["rows_after"]), shape=shape)
 
 
